@@ -312,6 +312,16 @@ func (e constantValueCastError) Error() string {
 }
 
 // Failure to cast a specific field of a struct literal.
+// constantCycleError is raised when the value of a constant refers to the
+// constant itself, directly or through other constants or default values.
+type constantCycleError struct {
+	Name string
+}
+
+func (e constantCycleError) Error() string {
+	return fmt.Sprintf("constant %q is defined in terms of itself", e.Name)
+}
+
 type constantStructFieldCastError struct {
 	FieldName string
 	Reason    error
